@@ -47,7 +47,7 @@ const (
 	rsmSet       = `<set xmlns="http://jabber.org/protocol/rsm"><first index="0">stpeter@jabber.org</first><last>peterpan@neverland.lit</last><count>800</count></set>`
 	canonTime    = `<time xmlns="urn:xmpp:time"><tzo>-06:00</tzo><utc>2006-12-19T17:58:35Z</utc></time>`
 	canonVersion = `<query xmlns="jabber:iq:version"><name>Exodus</name><version>0.7.0.4</version><os>Windows-XP 5.01.2600</os></query>`
-	canonForm    = `<x xmlns="jabber:x:data" type="form"><title>Configuration</title><instructions>Complete this form</instructions><field var="FORM_TYPE" type="hidden"><value>http://jabber.org/protocol/muc#roomconfig</value></field><field label="Natural-Language Room Name" type="text-single" var="muc#roomconfig_roomname"><value>A Dark Cave</value></field><field label="Make Room Persistent?" type="boolean" var="muc#roomconfig_persistentroom"><value>0</value></field><field type="list-single" var="muc#roomconfig_whois"><value>moderators</value><option label="Moderators Only"><value>moderators</value></option><option label="Anyone"><value>anyone</value></option></field><field type="text-multi" var="desc"><value>a</value><value>b</value></field><field type="jid-multi" var="admins"><value>wiccarocks@shakespeare.lit</value></field><field type="fixed"><value>Section</value></field></x>`
+	canonForm    = `<x xmlns="jabber:x:data" type="form"><title>Configuration</title><instructions>Complete this form</instructions><field var="FORM_TYPE" type="hidden"><value>http://jabber.org/protocol/muc#roomconfig</value></field><field label="Natural-Language Room Name" type="text-single" var="muc#roomconfig_roomname"><value>A Dark Cave</value></field><field label="Make Room Persistent?" type="boolean" var="muc#roomconfig_persistentroom"><value>0</value></field><field type="list-single" var="muc#roomconfig_whois"><value>moderators</value><option label="Moderators Only"><value>moderators</value></option><option label="Anyone"><value>anyone</value></option></field><field type="text-multi" var="desc"><value>a</value><value>b</value></field><field type="jid-multi" var="admins"><value>wiccarocks@shakespeare.lit</value><value>hecate@shakespeare.lit</value></field><field type="fixed"><value>Section</value></field></x>`
 	canonInfo    = `<query xmlns="http://jabber.org/protocol/disco#info" node="n"><identity category="conference" type="text" name="Play-Specific Chatrooms" xml:lang="en"/><identity category="directory" type="chatroom"/><feature var="http://jabber.org/protocol/disco#info"/><feature var="http://jabber.org/protocol/muc"/><x xmlns="jabber:x:data" type="result"><field var="FORM_TYPE" type="hidden"><value>urn:xmpp:dataforms:softwareinfo</value></field><field var="ip_version" type="text-multi"><value>ipv4</value><value>ipv6</value></field></x></query>`
 	canonItems   = `<query xmlns="http://jabber.org/protocol/disco#items"><item jid="people.shakespeare.lit" name="Directory of Characters"/><item jid="plays.shakespeare.lit" node="n2" name="Play-Specific Chatrooms"/></query>`
 	canonItemsPg = `<query xmlns="http://jabber.org/protocol/disco#items"><item jid="people.shakespeare.lit" name="Directory of Characters"/>` + rsmSet + `</query>`
@@ -431,7 +431,7 @@ const (
 )
 
 var replyKinds = []string{
-	"canon", "canon", "canon-mutated", "canon-mutated", "canon-mutated", "canon-recased", "empty-result", "text-only-result", "text-then-canon", "canon-then-text",
+	"canon", "canon", "canon-mutated", "canon-mutated", "canon-mutated", "canon-recased", "canon-repeated", "empty-result", "text-only-result", "text-then-canon", "canon-then-text",
 	"error", "error-text-first", "error-empty", "error-no-payload", "error-garbage", "error-echo",
 	"wrong-payload", "wrong-namespace", "nested-garbage", "two-payloads", "type-get", "no-type", "pre-only",
 	"broken-xml", "broken-xml", "truncated",
@@ -540,6 +540,44 @@ func genReply(t *rapid.T, h *helper) breply {
 		}
 		walk(n)
 		r.muts = append(r.muts, "recased-"+how)
+		r.stanza = pre + render(n)
+	case "canon-repeated":
+		// the canonical answer from an implementation that says things twice:
+		// in every element of the payload with two or more child elements the
+		// list of children is repeated (a b -> a b a b) or every child doubled
+		// (a b -> a a b b)
+		n := lit(wrapReply(kind, "result", from, canon))
+		how := rapid.SampledFrom([]string{"abab", "aabb", "leaves-abab", "leaves-aabb"}).Draw(t, "repeat")
+		var walk func(x *xt.Node, depth int)
+		walk = func(x *xt.Node, depth int) {
+			els, grand := 0, false
+			for _, c := range x.Children {
+				if !c.IsText() {
+					els++
+					walk(c, depth+1)
+					for _, g := range c.Children {
+						grand = grand || !g.IsText()
+					}
+				}
+			}
+			if depth == 0 || els < 2 || (strings.HasPrefix(how, "leaves-") && grand) {
+				return
+			}
+			var kids []*xt.Node
+			if strings.HasSuffix(how, "abab") {
+				kids = append(kids, x.Children...)
+				for _, c := range x.Children {
+					kids = append(kids, c.Clone())
+				}
+			} else {
+				for _, c := range x.Children {
+					kids = append(kids, c, c.Clone())
+				}
+			}
+			x.Children = kids
+		}
+		walk(n, 0)
+		r.muts = append(r.muts, "repeated-"+how)
 		r.stanza = pre + render(n)
 	case "empty-result":
 		r.stanza = wrapReply(kind, "result", from, "")
